@@ -341,6 +341,25 @@ func Equal(p1, p2 Ptr) (bool, error) {
 		if l1.Len() != l2.Len() {
 			return false, nil
 		}
+		if b1, b2 := l1.flags&isBitList != 0, l2.flags&isBitList != 0; b1 || b2 {
+			// Bit lists have no struct-list upgrade: they are only equal to
+			// bit lists, bit by bit.  The unused bits of the last byte are
+			// not part of the value.
+			if !b1 || !b2 {
+				return false, nil
+			}
+			n := Size(l1.length / 8)
+			if !bytes.Equal(l1.seg.slice(l1.off, n), l2.seg.slice(l2.off, n)) {
+				return false, nil
+			}
+			if rem := uint(l1.length % 8); rem != 0 {
+				mask := byte(1)<<rem - 1
+				b1 := l1.seg.readUint8(l1.off.addSizeUnchecked(n))
+				b2 := l2.seg.readUint8(l2.off.addSizeUnchecked(n))
+				return b1&mask == b2&mask, nil
+			}
+			return true, nil
+		}
 		if l1.flags&isCompositeList == 0 && l2.flags&isCompositeList == 0 && l1.size != l2.size {
 			return false, nil
 		}
